@@ -233,6 +233,7 @@ func (f *g2lFn) findMutated(fd *ast.FuncDecl) {
 		}
 		return true
 	})
+	f.findMutatedEnv(fd) // go2lean_env.go
 }
 
 // ---------------------------------------------------------------- statements
@@ -289,6 +290,9 @@ func (f *g2lFn) assignTo(l ast.Expr, val string, define bool, ind int) []string 
 	case *ast.SelectorExpr:
 		// x.f = v  ⇒  x = { x with f := v }   (x a struct VALUE, possibly itself a field or element)
 		xt := f.typeOf(x.X)
+		if out, ok := f.ptrFieldAssign(x, val, ind); ok { // go2lean_env.go
+			return out
+		}
 		if g2lKindOf(xt) != kStruct && !f.inOutBase(x.X) {
 			f.fail("assignment to `%s` (only fields of struct values; through a pointer the callee's caller would see it)", f.src(l))
 		}
@@ -381,6 +385,9 @@ func (f *g2lFn) ret(x *ast.ReturnStmt, ind int) []string {
 	}
 	switch len(x.Results) {
 	case 0:
+		if out, ok := f.retVoid(ind); ok { // go2lean_env.go
+			return out
+		}
 		f.fail("bare return (named results are outside the subset)")
 	case 1:
 		if _, ok := f.typeOf(x.Results[0]).(*types.Tuple); ok {
@@ -655,6 +662,9 @@ func (f *g2lFn) rangeStmt(x *ast.RangeStmt, ind int) []string {
 }
 
 func (f *g2lFn) stmt(s ast.Stmt, ind int) []string {
+	if out, ok := f.stmtEnv(s, ind); ok { // go2lean_env.go: calls with in-out parameters, out-parameter primitives
+		return out
+	}
 	switch x := s.(type) {
 	case *ast.EmptyStmt:
 		return nil
@@ -835,10 +845,11 @@ func (g *g2l) translateFunc(key string) (u *g2lUnit) {
 		f.fail("no type information")
 	}
 	sig := obj.Type().(*types.Signature)
-	if sig.Variadic() {
+	if sig.Variadic() && !g.env().Variadic { // go2lean_env.go
 		f.fail("variadic function")
 	}
-	if sig.Results().Len() == 0 {
+	void := sig.Results().Len() == 0
+	if void && !(g.envOn() && len(g.inOutFor(key)) > 0) { // go2lean_env.go
 		f.fail("no result (a function without result is only called for its effect)")
 	}
 	if fd.Type.Results != nil {
@@ -879,6 +890,16 @@ func (g *g2l) translateFunc(key string) (u *g2lUnit) {
 		resT = f.lean(sig.Results())
 	}
 	resT = f.inOutResult(resT, sig.Results().Len())
+	if void { // go2lean_env.go: the end of the body returns the in-out parameters
+		resT = f.voidResult()
+		if !g2lTerminates(fd.Body.List) {
+			body := *fd.Body
+			body.List = append(append([]ast.Stmt{}, fd.Body.List...), &ast.ReturnStmt{})
+			fdc := *fd
+			fdc.Body = &body
+			fd = &fdc
+		}
+	}
 	if !g2lTerminates(fd.Body.List) {
 		f.fail("the body does not end in a return on every path the translator recognises")
 	}
